@@ -63,49 +63,82 @@ def pattern_bindings(pat):
     return out, rest
 
 
-def flows_to_visitor(body, start, visitors):
+def alias_closure(body, start):
+    """names that may hold (part of) the value bound to `start` inside `body`: through lets, loop variables,
+    `if let` / `match` bindings on it, closure parameters of iterator adaptors over it, and containers it is pushed into"""
     reach = {start}
     changed = True
     nodes = list(walk(body))
     while changed:
         changed = False
+
+        def add(name):
+            nonlocal changed
+            if name not in reach:
+                reach.add(name)
+                changed = True
+
+        def touches(e):
+            return bool({p["path"] for p in walk(e) if p["k"] == "Path"} & reach)
+
         for n in nodes:
-            if n["k"] == "For":
-                it = {p["path"] for p in walk(n["iter"]) if p["k"] == "Path"}
-                if it & reach:
+            k = n["k"]
+            if k == "Local" and n["init"] is not None:
+                if touches(n["init"]):
                     for b in walk(n["pat"]):
-                        if b["k"] == "PIdent" and b["name"] not in reach:
-                            reach.add(b["name"])
-                            changed = True
-            elif n["k"] == "If" and n["cond"]["k"] == "Let":
-                it = {p["path"] for p in walk(n["cond"]["e"]) if p["k"] == "Path"}
-                if it & reach:
+                        if b["k"] == "PIdent":
+                            add(b["name"])
+            elif k == "For":
+                if touches(n["iter"]):
+                    for b in walk(n["pat"]):
+                        if b["k"] == "PIdent":
+                            add(b["name"])
+            elif k in ("If", "While") and n["cond"]["k"] == "Let":
+                if touches(n["cond"]["e"]):
                     for b in walk(n["cond"]["pat"]):
-                        if b["k"] == "PIdent" and b["name"] not in reach:
-                            reach.add(b["name"])
-                            changed = True
-            elif n["k"] == "Closure":
-                pass
-            elif n["k"] == "MethodCall" and n["method"] in ("map", "for_each", "try_for_each", "all", "any") and n["args"] and n["args"][0]["k"] == "Closure":
-                it = {p["path"] for p in walk(n["recv"]) if p["k"] == "Path"}
-                if it & reach:
-                    for b in walk(n["args"][0]["inputs"]):
-                        if isinstance(b, dict) and b.get("k") == "PIdent" and b["name"] not in reach:
-                            reach.add(b["name"])
-                            changed = True
-            elif n["k"] == "Local" and n["init"] is not None:
-                it = {p["path"] for p in walk(n["init"]) if p["k"] == "Path"}
-                if it & reach and not any(c["k"] in ("Call", "MethodCall") and (c.get("method") in visitors or (c["k"] == "Call" and last(render(c["func"])) in visitors)) for c in walk(n["init"])):
+                        if b["k"] == "PIdent":
+                            add(b["name"])
+            elif k == "Let":
+                if touches(n["e"]):
                     for b in walk(n["pat"]):
-                        if b["k"] == "PIdent" and b["name"] not in reach:
-                            reach.add(b["name"])
-                            changed = True
-    for n in nodes:
+                        if b["k"] == "PIdent":
+                            add(b["name"])
+            elif k == "Match":
+                if touches(n["scrut"]):
+                    for a in n["arms"]:
+                        for b in walk(a["pat"]):
+                            if b["k"] == "PIdent" and not b["name"][:1].isupper():
+                                add(b["name"])
+            elif k == "MethodCall" and n["args"] and n["args"][-1].get("k") == "Closure" and n["method"] in ("any", "all", "map", "for_each", "try_for_each", "find", "position", "filter", "filter_map", "flat_map", "fold", "try_fold", "iter_any", "map_or", "and_then", "is_some_and"):
+                if touches(n["recv"]):
+                    for pp in n["args"][-1]["inputs"]:
+                        for b in walk(pp):
+                            if b["k"] == "PIdent":
+                                add(b["name"])
+            elif k == "MethodCall" and n["method"] in ("push", "append", "extend", "clone_from", "insert") and n["args"]:
+                if any(touches(a) for a in n["args"]):
+                    r = strip(n["recv"])
+                    if r["k"] == "Path":
+                        add(r["path"])
+    return reach
+
+
+def flows_to_visitor(body, start, visitors, file=None):
+    """does (part of) the value named `start` reach a call of one of `visitors` (as receiver or argument)?  With `file`,
+    calls of private helper functions of that file are looked into (astlib.inline_helpers)."""
+    if file is not None:
+        from astlib import inline_helpers
+
+        body = inline_helpers({"name": "__caller__", "body": body, "sig": {"inputs": []}}, file, exclude=tuple(visitors))["body"]
+    reach = alias_closure(body, start)
+    for n in walk(body):
         args = None
         if n["k"] == "Call" and n["func"]["k"] == "Path" and last(n["func"]["path"]) in visitors:
             args = n["args"]
         elif n["k"] == "MethodCall" and n["method"] in visitors:
             args = [n["recv"]] + n["args"]
+        elif n["k"] == "MethodCall" and n["args"] and n["method"] in ("for_each", "map", "try_for_each") and n["args"][-1].get("k") == "Path" and last(n["args"][-1]["path"]) in visitors:
+            args = [n["recv"]]  # xs.iter_mut().for_each(Visitor)
         if args:
             for a in args:
                 if {p["path"] for p in walk(a) if p["k"] == "Path"} & reach:
@@ -167,7 +200,7 @@ def check(ctx, R, file, fn_name, qual, enum_file, enum_name, visitors, scrutinee
                 if binds[f] == "<pattern>":
                     ctx.ok(R, k, "destructured in the pattern", site(file, arm))
                     continue
-                ok = flows_to_visitor(arm["body"], binds[f], visitors)
+                ok = flows_to_visitor(arm["body"], binds[f], visitors, file)
                 ctx.check(R, k, ok, "child `%s` (bound as `%s`) does not flow into %s" % (f, binds[f], "/".join(sorted(visitors))), site(file, arm))
     for vn in en:
         if vn not in seen and vn not in skip_variants:
